@@ -139,6 +139,13 @@ func fetchSlashingProtection(ctx context.Context) (*SlashingProtection, error) {
 	return res, nil
 }
 
+// raiseSlashingProtection raises each field of dst to at least the value of that field in src.
+func raiseSlashingProtection(dst *rules.SlashingProtection, src *rules.SlashingProtection) {
+	dst.HighestAttestedSourceEpoch = max(dst.HighestAttestedSourceEpoch, src.HighestAttestedSourceEpoch)
+	dst.HighestAttestedTargetEpoch = max(dst.HighestAttestedTargetEpoch, src.HighestAttestedTargetEpoch)
+	dst.HighestProposedSlot = max(dst.HighestProposedSlot, src.HighestProposedSlot)
+}
+
 // importSlashingProtection is a command to import a slashing protection database.
 func importSlashingProtection(ctx context.Context) int {
 	if viper.GetString("slashing-protection-file") == "" {
@@ -251,19 +258,15 @@ func storeSlashingProtection(ctx context.Context, protection *SlashingProtection
 			}
 		}
 
-		existingKeyProtection, exists := existingProtection[key]
-		if exists {
-			// We already have an entry; only add this if it contains newer data.
-			if existingKeyProtection.HighestAttestedSourceEpoch <= keyProtection.HighestAttestedSourceEpoch &&
-				existingKeyProtection.HighestAttestedTargetEpoch <= keyProtection.HighestAttestedTargetEpoch &&
-				existingKeyProtection.HighestProposedSlot <= keyProtection.HighestProposedSlot {
-				protectionMap[key] = keyProtection
-			} else {
-				fmt.Fprintf(os.Stdout, "Existing entry for public key %#x contains newer data; not importing\n", key)
-			}
-		} else {
-			protectionMap[key] = keyProtection
+		// Never lower protection: take the highest value of each field across the existing
+		// entry, any earlier entry in this file for the same key, and this entry.
+		if existingKeyProtection, exists := existingProtection[key]; exists {
+			raiseSlashingProtection(keyProtection, existingKeyProtection)
 		}
+		if earlierKeyProtection, exists := protectionMap[key]; exists {
+			raiseSlashingProtection(keyProtection, earlierKeyProtection)
+		}
+		protectionMap[key] = keyProtection
 	}
 	if err := rulesSvc.ImportSlashingProtection(ctx, protectionMap); err != nil {
 		return errors.Wrap(err, "failed to obtain slashing protection")
